@@ -7,6 +7,7 @@ import Mahotas.Proofs.C01Star
 import Mahotas.Proofs.C01Fast
 import Mahotas.Proofs.C01Loops
 import Mahotas.Proofs.C01Tables
+import Mahotas.Proofs.C01Dispatch
 import Mahotas.Generated.Tables
 namespace Mahotas.C01
 open Mahotas
@@ -644,3 +645,318 @@ example :
     (diskElem 2 2).toList = [0,0,0,0,0, 0,1,1,1,0, 0,1,1,1,0, 0,1,1,1,0, 0,0,0,0,0] ∧
     (diskElem 2 0).toList = [0] := by
   decide +kernel
+
+/-! ## Round 3: the Python dispatch (`get_structuring_elem`) and the C++ dispatch (`py_erode`/`py_dilate`) -/
+
+/-- **C01-T6b (`get_structuring_elem`, the dispatch on `Bc`).** `getStructuringElem dt d Bc` transliterates
+`get_structuring_elem(A, Bc)` for an array `A` of dtype `dt` and rank `d` (any `d`, 0 included): `None` becomes 1; a Python
+`int` that is a key `(d, Bc)` of `translate_sizes` (the table regenerated from `morph.py`) is replaced by the
+table's radius; the 2-D/radius-1 case returns the literal 3×3 cross and every other integer runs the loop
+over `{0,1,2}^d` (`crossLoop`, a fold setting cells of a zero array); an array of another rank raises, an array
+of the right rank is cast to `dt`, raises if it has a zero-length axis, and is otherwise passed through.
+The theorem states, for every `dt` and `d`:
+(1, 2) `None` and `1` give the ℓ1 ball of radius 1 in `{0,1,2}^d` (`crossElem d 1`, shape `(3,)*d`);
+(3) every integer `v` — negative, zero and huge ones included, Python accepts them all — gives
+`crossElem d (seRadius d v)`, whose members are exactly the offsets `k ∈ {−1,0,1}^d` with `‖k‖₁ ≤ seRadius d v`
+(so a negative radius gives the empty element, 0 only the centre, anything `≥ d` the full box);
+(4–6) `seRadius d v` is the translated radius for the three keys of `translate_sizes` ((2-D, 4) ↦ 1,
+(2-D, 8) ↦ 2, (3-D, 6) ↦ 1: every row of the generated table is honoured) and `v` itself for every other pair;
+(7) an array whose rank differs from `d` is rejected (`ValueError`), (8) an array of rank `d` with a zero-length
+axis is rejected (the guard added by fix c895f82), (9) any other array of rank `d` is returned with its shape and with
+every entry cast to `dt` (`castTo`: `x != 0` for bool, the value modulo `2^bits` for integers), and (10) if
+its entries are representable in `dt` (bool: 0/1) it is returned unchanged. Not modelled: arguments that are
+neither `None`, `int` nor an integer/boolean ndarray (lists and `bool`s raise `AttributeError`; float arrays
+are truncated by numpy). -/
+theorem C01_get_structuring_elem_spec (dt : DT) (d : Nat) :
+    getStructuringElem dt d .none = .ok (List.replicate d 3, crossElem d 1) ∧
+    getStructuringElem dt d (.int 1) = .ok (List.replicate d 3, crossElem d 1) ∧
+    (∀ v : Int,
+      getStructuringElem dt d (.int v) = .ok (List.replicate d 3, crossElem d (seRadius d v)) ∧
+      ∀ k, k ∈ (support (List.replicate d 3) (crossElem d (seRadius d v)) true).map (·.1) ↔
+        (k.length = d ∧ ∀ x ∈ k, -1 ≤ x ∧ x ≤ 1) ∧ l1N k ≤ seRadius d v) ∧
+    (∀ v : Int, seRadius d v =
+      if d = 2 ∧ v = 4 then 1 else if d = 2 ∧ v = 8 then 2 else if d = 3 ∧ v = 6 then 1 else v) ∧
+    (∀ c r : Nat, (d, c, r) ∈ Generated.translateSizes → seRadius d (c : Int) = (r : Int)) ∧
+    (∀ v : Int, (∀ t ∈ Generated.translateSizes, ¬ (t.1 = d ∧ (t.2.1 : Int) = v)) → seRadius d v = v) ∧
+    (∀ bshape bc, bshape.length ≠ d → getStructuringElem dt d (.array bshape bc) = .error .rank) ∧
+    (∀ bshape bc, bshape.length = d → shapeSize bshape = 0 →
+      getStructuringElem dt d (.array bshape bc) = .error .empty) ∧
+    (∀ bshape bc, bshape.length = d → shapeSize bshape ≠ 0 →
+      getStructuringElem dt d (.array bshape bc) = .ok (bshape, bc.map (castTo dt))) ∧
+    (∀ bshape bc, DTypeOK dt → bshape.length = d → shapeSize bshape ≠ 0 → (∀ x ∈ bc.toList, dt.InRange x) →
+      getStructuringElem dt d (.array bshape bc) = .ok (bshape, bc)) := by
+  have hrad : ∀ v : Int, seRadius d v =
+      if d = 2 ∧ v = 4 then 1 else if d = 2 ∧ v = 8 then 2 else if d = 3 ∧ v = 6 then 1 else v := by
+    intro v
+    unfold seRadius
+    rw [translateLookup_eq]
+    by_cases h1 : d = 2 ∧ v = 4 <;> by_cases h2 : d = 2 ∧ v = 8 <;> by_cases h3 : d = 3 ∧ v = 6 <;>
+      simp [h1, h2, h3]
+  have harr : ∀ bshape bc, bshape.length = d → shapeSize bshape ≠ 0 →
+      getStructuringElem dt d (.array bshape bc) = .ok (bshape, bc.map (castTo dt)) := by
+    intro bshape bc hl hz
+    simp [getStructuringElem, hl, hz]
+  refine ⟨getSE_none dt d, ?_, ?_, hrad, ?_, ?_, ?_, ?_, harr, ?_⟩
+  · rw [getSE_int, hrad]
+    have : ¬ ((1 : Int) = 4) ∧ ¬ ((1 : Int) = 8) ∧ ¬ ((1 : Int) = 6) := by decide
+    simp [this]
+  · intro v
+    exact ⟨getSE_int dt d v, ((C01_se_tables d).1 (seRadius d v)).1⟩
+  · intro c r h
+    rw [hrad]
+    simp only [Generated.translateSizes, List.mem_cons, Prod.mk.injEq, List.mem_nil_iff, or_false] at h
+    rcases h with ⟨rfl, rfl, rfl⟩ | ⟨rfl, rfl, rfl⟩ | ⟨rfl, rfl, rfl⟩ <;> simp
+  · intro v h
+    rw [hrad]
+    have h1 : ¬ (2 = d ∧ (4 : Int) = v) := by simpa using h (2, 4, 1) (by simp [Generated.translateSizes])
+    have h2 : ¬ (2 = d ∧ (8 : Int) = v) := by simpa using h (2, 8, 2) (by simp [Generated.translateSizes])
+    have h3 : ¬ (3 = d ∧ (6 : Int) = v) := by simpa using h (3, 6, 1) (by simp [Generated.translateSizes])
+    have e1 : ¬ (d = 2 ∧ v = 4) := fun ⟨a, b⟩ => h1 ⟨a.symm, b.symm⟩
+    have e2 : ¬ (d = 2 ∧ v = 8) := fun ⟨a, b⟩ => h2 ⟨a.symm, b.symm⟩
+    have e3 : ¬ (d = 3 ∧ v = 6) := fun ⟨a, b⟩ => h3 ⟨a.symm, b.symm⟩
+    simp only [e1, e2, e3, if_false]
+  · intro bshape bc hl
+    have : (d != bshape.length) = true := by simpa using fun h => hl h.symm
+    simp [getStructuringElem, this]
+  · intro bshape bc hl hz
+    simp [getStructuringElem, hl, hz]
+  · intro bshape bc hdt hl hz hr
+    rw [harr bshape bc hl hz, map_castTo_id dt hdt bc hr]
+
+/-- **C01-T5b (the C++ dispatch never changes the answer).** `pathOf dt ndim flags` transliterates the test
+of `py_erode`/`py_dilate` — `check_type<bool>(array) && PyArray_NDIM(array) == 2 && PyArray_ISCARRAY(array)`
+(C-contiguous, aligned, writeable, native byte order) — and `erodeDispatch`/`dilateDispatch` run the fast
+binary branch **as the row loops are written** (`fastErodeLoops`, `fastDilateLoops`) when it says `fast`, and
+the generic kernel with the footprint it builds (`support bshape bc dt.isBool`) otherwise. For every integer
+dtype and bool, every image of every rank and shape (empty images included) stored with as many cells as its
+shape says, with values representable in the dtype, every element of the rank of the image (what `py_erode` checks;
+any shape: odd, even, larger than the image, empty) with 0/1 entries when the image is boolean, and **all**
+flag combinations: the dispatched result is the array the generic kernel returns — for erosion and for
+dilation, at every pixel, border included. Hence any two layouts/flag settings of the same logical input get
+the same answer: which code path serves the call never changes the result. -/
+theorem C01_path_independent (dt : DT) (hdt : DTypeOK dt) (A : Img Int) (bshape : List Nat) (bc : Array Int)
+    (hrank : bshape.length = A.shape.length) (hdata : A.data.size = A.size)
+    (hbc : bc.size = shapeSize bshape) (hA : ImageInRange dt A)
+    (hB : dt.isBool = true → ∀ i, bc.getD i 0 = 0 ∨ bc.getD i 0 = 1) :
+    (∀ fl, erodeDispatch dt fl A bshape bc = erodeModel dt A (support bshape bc dt.isBool)) ∧
+    (∀ fl, dilateDispatch dt fl A bshape bc = dilateModel dt A (support bshape bc dt.isBool)) ∧
+    (∀ fl fl', erodeDispatch dt fl A bshape bc = erodeDispatch dt fl' A bshape bc ∧
+      dilateDispatch dt fl A bshape bc = dilateDispatch dt fl' A bshape bc) := by
+  -- what the fast path is entitled to: a 2-D boolean image and a 2-D 0/1 element
+  have fastcase : ∀ fl, pathOf dt A.shape.length fl = .fast →
+      dt = dtBool ∧ ∃ Ny Nx By Bx, A.shape = [Ny, Nx] ∧ bshape = [By, Bx] := by
+    intro fl h
+    obtain ⟨hb, h2, _⟩ := pathOf_fast dt _ fl h
+    refine ⟨isBool_eq dt hdt hb, ?_⟩
+    rw [h2] at hrank
+    match hA' : A.shape, hB' : bshape, h2, hrank with
+    | [Ny, Nx], [By, Bx], _, _ => exact ⟨Ny, Nx, By, Bx, rfl, rfl⟩
+  have he : ∀ fl, erodeDispatch dt fl A bshape bc = erodeModel dt A (support bshape bc dt.isBool) := by
+    intro fl
+    unfold erodeDispatch
+    cases hp : pathOf dt A.shape.length fl with
+    | generic => rfl
+    | fast =>
+      obtain ⟨rfl, Ny, Nx, By, Bx, hshape, rfl⟩ := fastcase fl hp
+      have hbc01 := hB rfl
+      have hA01 : ∀ q, A.getD q 0 = 0 ∨ A.getD q 0 = 1 := by
+        intro q; have := hA q; simp only [DT.InRange, dtBool] at this; omega
+      have hbc' : bc.size = By * Bx := by rw [hbc]; simp [shapeSize]
+      show fastErodeLoops A [By, Bx] bc = erodeModel dtBool A (support [By, Bx] bc true)
+      apply array_eq_of_cells _ _ A.size
+      · obtain ⟨shape, data⟩ := A
+        simp only at hshape; subst hshape
+        exact fastErodeLoops_size Ny Nx data _ bc hdata
+      · exact erodeModel_size _ _ _
+      · intro i hi
+        have hin := inside_unravelI A.shape i hi
+        have hrv := ravelI_unravelI A.shape i hi
+        have hs : ∀ d ∈ A.shape, 0 < d := by
+          intro d hd
+          rw [hshape] at hd
+          have hsz : A.size = Ny * Nx := by simp [Img.size, hshape, shapeSize]
+          have hpos : 0 < Ny * Nx := by omega
+          have : d = Ny ∨ d = Nx := by simpa using hd
+          rcases this with rfl | rfl
+          · exact Nat.pos_of_mul_pos_right hpos
+          · exact Nat.pos_of_mul_pos_left hpos
+        rw [erodeModel_getD _ _ _ i hi]
+        have hin2 := hin
+        rw [hshape] at hin2
+        obtain ⟨y, x, hyx, _, _⟩ := inside2 Ny Nx _ hin2
+        have hp' : inside A.shape [y, x] = true := by rw [← hyx, ← hshape]; exact hin
+        have hones : ∀ kh ∈ support [By, Bx] bc true, kh.2 = 1 := by
+          intro kh hkh
+          obtain ⟨j, _, hne, rfl⟩ := (mem_support2 By Bx bc kh).mp hkh
+          rcases hbc01 j with h | h
+          · exact absurd h hne
+          · exact h
+        rw [erodeAtExit_eq dtBool (Or.inr rfl) A _ _ hs hA
+          (fun kh hkh => by rw [hones kh hkh]; exact ⟨⟨by decide, by decide⟩, Or.inl (by decide)⟩)]
+        have h1 := (C01_fast_erode_loops_eq_pointwise A Ny Nx [By, Bx] bc y x hshape hdata hA01 hp').2.1
+        have h2 := (C01_fast_erode_eq_spec A Ny Nx By Bx bc y x hshape hA01 hbc' hp').2 hbc01
+        rw [← hyx, ← hshape, hrv] at h1
+        rw [← hyx, ← hshape] at h2
+        rw [h1]
+        exact h2
+  have hd : ∀ fl, dilateDispatch dt fl A bshape bc = dilateModel dt A (support bshape bc dt.isBool) := by
+    intro fl
+    unfold dilateDispatch
+    cases hp : pathOf dt A.shape.length fl with
+    | generic => rfl
+    | fast =>
+      obtain ⟨rfl, Ny, Nx, By, Bx, hshape, rfl⟩ := fastcase fl hp
+      have hA01 : ∀ q, A.getD q 0 = 0 ∨ A.getD q 0 = 1 := by
+        intro q; have := hA q; simp only [DT.InRange, dtBool] at this; omega
+      have hbc' : bc.size = By * Bx := by rw [hbc]; simp [shapeSize]
+      show fastDilateLoops A [By, Bx] bc = dilateModel dtBool A (support [By, Bx] bc true)
+      rw [C01_fast_dilate_loops_eq_pointwise A Ny Nx [By, Bx] bc hshape hdata hA01]
+      exact C01_fast_dilate_eq_generic A Ny Nx By Bx bc hshape hdata hA01 hbc'
+  exact ⟨he, hd, fun fl fl' => ⟨by rw [he fl, he fl'], by rw [hd fl, hd fl']⟩⟩
+
+namespace Mahotas.C01
+
+/-- a 0/1 element is admissible for every dtype of the statement (for bool the kernel sees the compressed footprint) -/
+theorem admissible_of_01 (dt : DT) (hdt : DTypeOK dt) (bshape : List Nat) (bc : Array Int)
+    (h01 : ∀ i, bc.getD i 0 = 0 ∨ bc.getD i 0 = 1) : AdmissibleElem dt (support bshape bc dt.isBool) := by
+  intro kh hkh
+  obtain ⟨i, _, he⟩ := support_heights bshape bc _ kh hkh
+  rcases hdt with wf | rfl
+  · have := wf.hi_pos
+    have hlo : dt.lo ≤ 0 := by rcases wf.lo_cases with h | h <;> omega
+    rcases h01 i with h | h
+    · rw [he, h]; exact ⟨⟨hlo, by omega⟩, Or.inl (Int.le_refl _), by simp [wf.notBool]⟩
+    · rw [he, h]; exact ⟨⟨by omega, by omega⟩, Or.inl (by decide), by simp [wf.notBool]⟩
+  · have hne : kh.2 ≠ 0 := by
+      have hm : kh ∈ (support bshape bc true).filter (isMember dtBool) := by
+        rw [support_filter_bool]; exact hkh
+      have := (List.mem_filter.mp hm).2
+      simpa [isMember, dtBool] using this
+    have h1 : kh.2 = 1 := by
+      rcases h01 i with h | h
+      · rw [he] at hne; exact absurd h hne
+      · rw [he]; exact h
+    rw [h1]; exact ⟨⟨by decide, by decide⟩, Or.inl (by decide), fun _ => rfl⟩
+
+end Mahotas.C01
+
+/-- **C01-T1…T5 through the dispatch (what `_morph.erode` / `_morph.dilate` return equals the lattice
+definition).** For every integer dtype and bool, every flag combination of the input array (hence whichever
+of the two code paths `py_erode`/`py_dilate` choose), every image of every rank and shape with positive axis
+lengths and in-range values, and every admissible structuring element of the rank of the image: the array
+returned by the dispatched erosion is the lattice definition at every pixel, and the cell of every pixel `q`
+the check observes — every pixel when the members are flat and star-shaped (cross, box, disk), the pixels
+whose element box and reflected box lie inside the image otherwise — in the dispatched dilation is the
+lattice definition (gather). -/
+theorem C01_dispatch_eq_spec (dt : DT) (hdt : DTypeOK dt) (fl : ArrFlags) (A : Img Int) (bshape : List Nat)
+    (bc : Array Int) (hs : ∀ d ∈ A.shape, 0 < d) (hrank : bshape.length = A.shape.length)
+    (hdata : A.data.size = A.size) (hbc : bc.size = shapeSize bshape) (hA : ImageInRange dt A)
+    (hB : AdmissibleElem dt (support bshape bc dt.isBool)) :
+    erodeDispatch dt fl A bshape bc =
+      ((allPos A.shape).map (erodeSpecAt dt A (support bshape bc dt.isBool))).toArray ∧
+    ∀ q, inside A.shape q = true →
+      (starShaped bshape (((support bshape bc dt.isBool).filter (isMember dt)).map (·.1)) &&
+        flatHeights (((support bshape bc dt.isBool).filter (isMember dt)).map (·.2)) ||
+        boxInterior A.shape bshape q) = true →
+      (dilateDispatch dt fl A bshape bc).getD (ravelI A.shape q) dt.lo =
+        dilateSpecAt dt A (support bshape bc dt.isBool) q := by
+  have hB01 : dt.isBool = true → ∀ i, bc.getD i 0 = 0 ∨ bc.getD i 0 = 1 := by
+    intro hb i
+    by_cases h0 : bc.getD i 0 = 0
+    · exact Or.inl h0
+    · right
+      have hi : i < shapeSize bshape := by rw [← hbc]; exact getD_ne_lt bc i h0
+      exact (hB _ (mem_support_of bshape bc dt.isBool i hi h0)).2.2 hb
+  obtain ⟨he, hd, _⟩ := C01_path_independent dt hdt A bshape bc hrank hdata hbc hA hB01
+  refine ⟨?_, fun q hq hobs => ?_⟩
+  · rw [he fl]
+    exact (C01_erode_model_eq_spec dt hdt A _ hs hA hB).2
+  · rw [hd fl]
+    exact C01_dilate_eq_spec_where_observed dt hdt A bshape _ q hs hrank
+      (C01_support_offsets_in_box bshape bc _).1 hA hB hq hobs
+
+/-- **C01 end to end for `None`/integer arguments (`mahotas.erode(A, Bc)`, `mahotas.dilate(A, Bc)`).**
+`erodePy`/`dilatePy` compose `get_structuring_elem` with the C++ dispatch exactly as `morph.erode`/`morph.dilate`
+do. For every integer dtype and bool, every flag combination, every image of rank `d` (any `d`) and shape
+with positive axis lengths and in-range values, and `Bc` being `None` or **any** Python integer `v`: the call
+does not raise; with `r = 1` for `None` and `r = seRadius d v` for `v` (the `translate_sizes` radius, or `v`
+itself) the erosion returned is the lattice definition for the ℓ1 ball `crossElem d r` at every pixel; and for
+bool and unsigned dtypes the dilation returned is the lattice definition at **every** pixel, border included.
+(For signed dtypes the 0 entries of the cross are members of height 0, the element is not flat, and the
+dilation equals the lattice definition at box-interior pixels by `C01_dispatch_eq_spec`.) -/
+theorem C01_python_call_cross (dt : DT) (hdt : DTypeOK dt) (fl : ArrFlags) (A : Img Int) (Bc : BcArg) (r : Int)
+    (hBc : (Bc = .none ∧ r = 1) ∨ ∃ v, Bc = .int v ∧ r = seRadius A.shape.length v)
+    (hs : ∀ d ∈ A.shape, 0 < d) (hdata : A.data.size = A.size) (hA : ImageInRange dt A) :
+    let bshape := List.replicate A.shape.length 3
+    let sup := support bshape (crossElem A.shape.length r) dt.isBool
+    ∃ e d, erodePy dt fl A Bc = .ok e ∧ dilatePy dt fl A Bc = .ok d ∧
+      e = ((allPos A.shape).map (erodeSpecAt dt A sup)).toArray ∧
+      (dt.lo = 0 → ∀ q, inside A.shape q = true → d.getD (ravelI A.shape q) dt.lo = dilateSpecAt dt A sup q) := by
+  intro bshape sup
+  have hse : getStructuringElem dt A.shape.length Bc = .ok (bshape, crossElem A.shape.length r) := by
+    rcases hBc with ⟨rfl, rfl⟩ | ⟨v, rfl, rfl⟩
+    · exact getSE_none dt _
+    · exact getSE_int dt _ v
+  have hrank : bshape.length = A.shape.length := by simp [bshape]
+  have hbc := crossElem_size A.shape.length r
+  have h01 := crossElem_01 A.shape.length r
+  have hB := admissible_of_01 dt hdt bshape _ h01
+  refine ⟨erodeDispatch dt fl A bshape (crossElem A.shape.length r),
+    dilateDispatch dt fl A bshape (crossElem A.shape.length r), ?_, ?_, ?_, ?_⟩
+  · simp only [erodePy, hse]
+  · simp only [dilatePy, hse]
+  · exact (C01_dispatch_eq_spec dt hdt fl A bshape _ hs hrank hdata hbc hA hB).1
+  · intro hlo q hq
+    rw [(C01_path_independent dt hdt A bshape _ hrank hdata hbc hA (fun _ => h01)).2.1 fl]
+    exact C01_dilate_cross_box_disk_everywhere dt hdt hlo A bshape _ q hs hA hq (Or.inl ⟨r, rfl, rfl⟩)
+
+/-! non-vacuity of the dispatch theorems: a 3×4 boolean image and the asymmetric 3×3 element on which the pinned
+    fast path was wrong. A C-contiguous aligned writeable array takes the fast path, a read-only (or Fortran)
+    one the generic path; both dispatches return the same arrays. `get_structuring_elem`: the translated
+    radius for (2-D, 8), a negative integer (empty element), rank mismatch, empty array, pass-through with cast. -/
+example :
+    let A : Img Int := { shape := [3, 4], data := #[1,1,0,1, 1,1,1,1, 0,1,1,1] }
+    let bc : Array Int := #[1,0,1, 1,0,1, 0,0,1]
+    let c : ArrFlags := ⟨true, true, true, true⟩
+    let ro : ArrFlags := ⟨true, true, false, true⟩
+    pathOf dtBool 2 c = .fast ∧ pathOf dtBool 2 ro = .generic ∧ pathOf dtBool 3 c = .generic ∧
+    pathOf (dtU 8) 2 c = .generic ∧
+    (erodeDispatch dtBool c A [3, 3] bc).toList = [1, 0, 1, 0, 1, 0, 1, 0, 0, 0, 1, 1] ∧
+    (erodeDispatch dtBool ro A [3, 3] bc).toList = [1, 0, 1, 0, 1, 0, 1, 0, 0, 0, 1, 1] ∧
+    (dilateDispatch dtBool c A [3, 3] bc) = (dilateDispatch dtBool ro A [3, 3] bc) := by
+  decide +kernel
+
+example :
+    let ok := fun (x : Except SEError (List Nat × Array Int)) => x.toOption
+    let err := fun (x : Except SEError (List Nat × Array Int)) =>
+      match x with | .error e => some e | .ok _ => none
+    ok (getStructuringElem dtBool 2 (.int 8)) = some ([3, 3], #[1,1,1, 1,1,1, 1,1,1]) ∧
+    ok (getStructuringElem dtBool 2 (.int 4)) = some ([3, 3], #[0,1,0, 1,1,1, 0,1,0]) ∧
+    ok (getStructuringElem (dtU 8) 3 (.int 6)) = ok (getStructuringElem (dtU 8) 3 .none) ∧
+    ok (getStructuringElem (dtU 8) 1 (.int (-2))) = some ([3], #[0, 0, 0]) ∧
+    ok (getStructuringElem (dtU 8) 1 (.int 0)) = some ([3], #[0, 1, 0]) ∧
+    err (getStructuringElem (dtU 8) 2 (.array [3] #[1, 1, 1])) = some .rank ∧
+    err (getStructuringElem (dtU 8) 2 (.array [0, 3] #[])) = some .empty ∧
+    ok (getStructuringElem (dtU 8) 2 (.array [1, 3] #[1, 256, -1])) = some ([1, 3], #[1, 0, 255]) ∧
+    ok (getStructuringElem dtBool 2 (.array [1, 3] #[1, 256, 0])) = some ([1, 3], #[1, 1, 0]) := by
+  decide +kernel
+
+/-! non-vacuity of `C01_python_call_cross`: `erode(A, 4)`/`dilate(A, 8)` on a 2×3 uint8 image -/
+example :
+    let A : Img Int := { shape := [2, 3], data := #[9, 200, 255, 7, 4, 31] }
+    let c : ArrFlags := ⟨true, true, true, true⟩
+    (erodePy (dtU 8) c A (.int 4)).toOption.map (·.toList) = some [6, 3, 30, 3, 3, 3] ∧
+    (dilatePy (dtU 8) c A (.int 4)).toOption.map (·.toList) = some [201, 255, 255, 10, 201, 255] ∧
+    (dilatePy (dtU 8) c A (.int 8)).toOption.map (·.toList) = some [201, 255, 255, 201, 255, 255] := by
+  decide +kernel
+
+example :
+    let A : Img Int := { shape := [2, 3], data := #[9, 200, 255, 7, 4, 31] }
+    ∃ e d, erodePy (dtU 8) ⟨true, true, true, true⟩ A (.int 8) = .ok e ∧
+      dilatePy (dtU 8) ⟨true, true, true, true⟩ A (.int 8) = .ok d ∧
+      (∀ q, inside A.shape q = true → d.getD (ravelI A.shape q) 0 =
+        dilateSpecAt (dtU 8) A (support [3, 3] (crossElem 2 2) false) q) := by
+  obtain ⟨e, d, h1, h2, _, h4⟩ := C01_python_call_cross (dtU 8) (Or.inl wf_u8) ⟨true, true, true, true⟩
+    { shape := [2, 3], data := #[9, 200, 255, 7, 4, 31] } (.int 8) 2 (Or.inr ⟨8, rfl, by decide +kernel⟩)
+    (by decide) rfl (imageInRange_of_data _ _ (by simp [DT.InRange, dtU]) (by simp [DT.InRange, dtU]))
+  exact ⟨e, d, h1, h2, h4 rfl⟩
